@@ -220,12 +220,66 @@ def run(ck, facts, tier):
                          detail=paths.fmt_paths(got)[:500], sample="solve(A^T A, A^T b)" if flag == "true" else "solve(A, b)")
             except Unsupported as e:
                 ck.fail(r3, key, "rule could not be established (%s)" % e, where)
+    # ---------------- R13.6 Python-facing wrappers
+    r6 = ck.rule("R13.6", "the Python-facing solver entry points hand their data to the core solver unchanged: a (the flat row-major list reshaped to "
+                          "(len(a)/len(b), len(b)), or the float matrix as given), b and allow_lsq go to dsolve/fdsolve as they came and the solver's result is returned as it is", floor=4)
+    PY = "dual::linalg_py::"
+    for fn, core in (("dsolve1_py", "dsolve"), ("dsolve2_py", "dsolve"), ("fdsolve1_py", "fdsolve"), ("fdsolve2_py", "fdsolve")):
+        r = facts.fn(PY + fn)
+        if r is None:
+            ck.fail(r6, fn, "wrapper not found")
+            continue
+        where = "%s:%d" % (r["file"], r["line"])
+        cap = []
+
+        def grab(ev, vals, e, cap=cap):
+            cap.append([vkey(v) for v in vals])
+            return Sym("solved")
+        try:
+            ev = cel.Ev(facts, hooks={LD + "dsolve": grab, LF + "fdsolve": grab, "dual::linalg::dsolve": grab, "dual::linalg::fdsolve": grab})
+            names = [p_.get("name") for p_ in r["params"]]
+            got = cel.strip_early(ev.apply_fn(r["fn"], [Sym("param", n_) for n_ in names], 0))
+        except Unsupported as e:
+            ck.fail(r6, fn, "rule could not be established (%s)" % e, where)
+            continue
+        pa, pb, pl = (vkey(Sym("param", n_)) for n_ in ("a", "b", "allow_lsq"))
+        la, lb = Poly.atom(("len", pa, None)), Poly.atom(("len", pb, None))
+        shape = vkey(cel.Tup([Poly.atom(("idiv", la.key(), lb.key())), lb]))
+        ok = len(cap) == 1 and len(cap[0]) == 3
+        why = "the core solver is not called exactly once with (a, b, allow_lsq)"
+        if ok:
+            a_, b_, l_ = (_carrier(k_) for k_ in cap[0])
+            want_a = ("sym", "m", "into_shape_with_order", pa, (shape,)) if core == "dsolve" else pa
+            ok, why = a_ == want_a, "the matrix handed to %s is not `a` %s: %s" % (core, "reshaped row-major to (len(a)/len(b), len(b))" if core == "dsolve" else "as given", repr(a_)[:200])
+            if ok:
+                ok, why = b_ == pb, "the right-hand side handed to %s is not `b` as given: %s" % (core, repr(b_)[:200])
+            if ok:
+                ok, why = l_ == pl, "allow_lsq is not handed on as given: %s" % repr(l_)[:120]
+            if ok:
+                ok, why = _carrier(vkey(got)) == ("sym", "ctor", "Ok", vkey(Sym("solved"))), "the wrapper does not return the solver's result as it is: %s" % cel.vfmt(got)[:200]
+        ck.check(r6, fn, ok, why, where, sample="Ok(%s(a, b, allow_lsq))" % core)
     # "in every first and second derivative carried by A and b": the solver is generic over the number type, so the AD operator rules are necessary conditions
     from rules import deps
     deps.include_ad(ck, facts, tier)
     ck.not_decided += ["that Gaussian elimination with partial pivoting returns the true solution and its derivatives for all well-conditioned systems (numerical correctness)",
                        "row-order independence as executed", "each loop body is evaluated once symbolically; the update statements, not their iteration-by-iteration effect, are compared"]
     ck.trusted += ["lib/cel.py array model (read-through, ordered write lists)"]
+
+
+CARRIERS = {"expect", "unwrap", "view", "as_array", "to_owned", "into_raw_vec", "to_vec", "into_owned", "clone", "into_dimensionality", "as_standard_layout"}
+
+
+def _carrier(k):
+    """A value key with the container changes that keep every element and its order erased (Vec -> Array1 -> view -> ...)."""
+    if isinstance(k, tuple):
+        if len(k) == 5 and k[:2] == ("sym", "m") and k[2] in CARRIERS and (not k[4] or k[2] == "expect"):
+            return _carrier(k[3])
+        if len(k) == 4 and k[:2] == ("sym", "call") and (k[2].endswith("::from_vec") or k[2].endswith("::from")) and len(k[3]) == 1:
+            return _carrier(k[3][0])
+        if len(k) == 4 and k[:2] == ("sym", "field") and k[3] == "0" and isinstance(k[2], tuple) and k[2][:3] == ("sym", "m", "into_raw_vec_and_offset"):
+            return _carrier(k[2][3])
+        return tuple(_carrier(x) for x in k)
+    return k
 
 
 def first_diff(a, b):
